@@ -82,7 +82,10 @@ RULE = (
     'with a nested list, array, unaligned blob or non-ASCII string. '
     'Distinct by sha1 of the canonical case JSON.')
 ASSUMPTIONS = [
-    'Addresses are valid OSC 1.0 ASCII addresses (no pattern characters).',
+    'Addresses are valid OSC 1.0 ASCII addresses (no pattern characters); '
+    'the clump stage also offers one non-ASCII address, which the library '
+    'may refuse with UnicodeEncodeError (it does) but must not send in an '
+    'over-limit datagram.',
     'Strings are compared as UTF-8 (sc3 sends UTF-8; OSC 1.0 says ASCII).',
     'A size prediction that raises for a packet the builder accepts is '
     'counted as a failed prediction (callers send nothing).',
@@ -604,6 +607,10 @@ def tmpl_element(t, i, time=None):
         return ['/' + 'abcdefghijklmnopqrstuvwxyz'[i % 26]]
     if k == 'ints':
         return ['/n_set', i] + [j for j in range(t[1])]
+    if k == 'wideaddr':
+        # an address outside OSC 1.0's ASCII: the size-predicting paths may
+        # refuse it (the unchanged library does), never send oversize for it
+        return ['/\u97f3\u91cf', i] + [j for j in range(t[1])]
     if k == 'str':
         return ['/s', i, {'str': ['€' if t[2] else 'x', t[1]]}]
     if k == 'blob':
@@ -626,6 +633,7 @@ template = st.one_of(
     st.just(['tiny']),
     st.integers(0, 12).map(lambda k: ['ints', k]),
     st.integers(0, 12).map(lambda k: ['ints', k]),
+    st.integers(0, 6).map(lambda k: ['wideaddr', k]),
     st.tuples(st.sampled_from([3, 40, 200, 1000, 4000, 9000, 20000]),
               st.integers(0, 3)).map(
         lambda p: ['str', p[0] + p[1], False]),
@@ -764,6 +772,11 @@ def run_clump(case, v):
         except Exception as e:
             if sc3_origin(e) is None:
                 raise
+            if isinstance(e, UnicodeEncodeError) and any(
+                    g['t'][0] == 'wideaddr' for g in case['groups']):
+                # clean refusal of an address that is not OSC 1.0
+                labels.append('nonascii_address_refused')
+                return {'nontrivial': False, 'labels': labels}
             fail(v, 'clump_raised', f'{path}: {e!r} for {short(case)}',
                  exc=type(e).__name__, oversized=total > LIMIT)
             return {'nontrivial': False, 'labels': labels}
